@@ -86,6 +86,30 @@ def run(facts, tr, rep):
     for W in rl.windows:
         rep.saw(W)
         _check_window(facts, tr, rep, rl, W)
+    # NONZERO-WAIT (also judged by C15): a wait answered without taking a permit is not produced by a whole-unit
+    # conversion, which would turn a sub-unit wait into Ok(ZERO) = "permit taken".  On the inlined view of each window
+    # state, so a shared "wait or reject" helper is covered.
+    ffacts, ftr = facts.inl, tr.inl
+    for W0 in rl.windows:
+        Wf = ffacts.bodies.get(W0.def_)
+        gf = graph(Wf)
+        nn = 0
+        for (i, j, node) in ret_assigns(ftr, Wf):
+            if node[0] != "agg" or not gf.live(i):
+                continue
+            b_, rv = ftr.agg_of(node)
+            if rv.get("variant") != "Ok" or _is_ok_zero(ftr, node):
+                continue
+            payload = peel(ftr.expand(ftr.operand(b_, rv["ops"][0], (node[3], node[4]))))
+            if payload[0] == "const":
+                continue
+            trunc = calls_in(ftr, payload, lambda x: x.name in ("as_millis", "as_secs", "as_micros", "subsec_millis", "subsec_micros", "from_millis",
+                                                                "from_secs", "from_micros", "as_secs_f32"))
+            rep.ob("C02.NONZERO-WAIT", skey(Wf, "ok-wait#%d" % nn), not trunc, gf.where(i, j),
+                   "the answered wait is not rounded to whole units" if not trunc else
+                   "the answered wait is truncated (%s): a sub-unit wait becomes Ok(ZERO), which acquire() reads as 'permit taken' and admits "
+                   "the call without consuming a permit" % trunc[0].name)
+            nn += 1
     # ---------------------------------------------------------------- ADMIT in the service
     for (b, c, found) in rl.service_sites:
         rep.saw(b)
